@@ -20,6 +20,7 @@ import (
 	"testing/synctest"
 	"time"
 
+	"garrshim/vsched"
 	workerpool "go.linecorp.com/garr/worker-pool"
 )
 
@@ -660,8 +661,18 @@ func TestStress(t *testing.T) {
 		task     *workerpool.Task
 		accepted bool
 		execs    int32
+		mode     int
 	}
+	// POOL_CHAOS (per mille): the binary was built against the copy of worker-pool whose atomics / locks / wait group go through the
+	// shims; every such operation is then surrounded by random bounded delays (vsched.Chaos)
+	chaos, _ := strconv.Atoi(os.Getenv("POOL_CHAOS"))
+	atomic.StoreInt32(&vsched.ChaosPerMille, int32(chaos))
+	defer atomic.StoreInt32(&vsched.ChaosPerMille, 0)
 	for round := 0; time.Now().Before(deadline); round++ {
+		if chaos > 0 && round%4 == 1 {
+			startStopRound(mon, rng, round, chaos)
+			continue
+		}
 		if round%3 == 2 {
 			crowdRound(mon, rng, round)
 			continue
@@ -685,8 +696,10 @@ func TestStress(t *testing.T) {
 		opt := workerpool.Option{NumberWorker: 1 + rng.Intn(3), ExpandableLimit: int32(rng.Intn(3)), ExpandedLifetime: time.Millisecond, DisableAutoStart: rng.Intn(4) == 0}
 		concurrentStart := opt.DisableAutoStart && rng.Intn(2) == 0
 		delay := time.Duration(rng.Intn(3000)) * time.Microsecond
-		fmt.Fprintf(mon, "RUN %d round=%d opt=%+v concurrentStart=%v stopAfter=%v\n", round, round, opt, concurrentStart, delay)
+		stops := 1 + rng.Intn(3)/2 // a third of the rounds: two Stop calls at once (the loser of the state transition returns early)
+		fmt.Fprintf(mon, "RUN %d round=%d opt=%+v concurrentStart=%v stopAfter=%v stops=%d chaos=%d\n", round, round, opt, concurrentStart, delay, stops, chaos)
 		mon.Flush()
+		roundStart := time.Now()
 		p := workerpool.NewPool(context.Background(), opt)
 		var stop int32
 		var panics, submitted int32
@@ -699,12 +712,13 @@ func TestStress(t *testing.T) {
 		nsub := 2 * runtime.GOMAXPROCS(0)
 		for i := 0; i < nsub; i++ {
 			wg.Add(1)
-			mode := i % 4
+			mode := i % 6
+			lr := rand.New(rand.NewSource(seed*1000003 + int64(round)*257 + int64(i)))
 			go func() {
 				defer wg.Done()
 				var mine []*sub
 				for atomic.LoadInt32(&stop) == 0 && len(mine) < 4000 {
-					s := &sub{}
+					s := &sub{mode: mode}
 					exec := func(context.Context) (interface{}, error) {
 						atomic.AddInt32(&s.execs, 1)
 						n := atomic.AddInt32(&runningNow, 1)
@@ -735,6 +749,24 @@ func TestStress(t *testing.T) {
 						case 2:
 							s.task = p.ExecuteWithCtx(cancelled, exec) // already-cancelled task context: refused or executed, never stranded
 							s.accepted = true
+						case 4:
+							// a context of the task's own, cancelled around the time Stop is called: a submitter parked in Do is released by
+							// whichever context is done first; whatever it is released with, a result without an error means "executed once"
+							ctx, cancelOwn := context.WithCancel(context.Background())
+							time.AfterFunc(time.Until(roundStart.Add(delay))+time.Duration(lr.Intn(500)-200)*time.Microsecond, cancelOwn)
+							s.task = workerpool.NewTask(ctx, exec)
+							p.Do(s.task)
+							s.accepted = true
+						case 5:
+							// a context with a deadline, submitted at the deadline instant (the context's timer fires a little later)
+							d := time.Now().Add(time.Duration(30+lr.Intn(300)) * time.Microsecond)
+							ctx, cancelOwn := context.WithDeadline(context.Background(), d)
+							_ = cancelOwn
+							for time.Now().Before(d) {
+							}
+							s.task = workerpool.NewTask(ctx, exec)
+							p.Do(s.task)
+							s.accepted = true
 						default:
 							s.task, s.accepted = p.TryExecute(exec)
 						}
@@ -754,7 +786,12 @@ func TestStress(t *testing.T) {
 			go p.Start()
 		}
 		stopDone := make(chan struct{})
-		go func() { p.Stop(); close(stopDone) }()
+		var sw sync.WaitGroup
+		for k := 0; k < stops; k++ {
+			sw.Add(1)
+			go func() { defer sw.Done(); p.Stop() }()
+		}
+		go func() { sw.Wait(); close(stopDone) }() // every Stop call has returned, in particular the one that performed the shutdown
 		msg := ""
 		select {
 		case <-stopDone:
@@ -780,7 +817,12 @@ func TestStress(t *testing.T) {
 						msg = "C04 task with a context-error result was executed"
 					}
 					if res.Err == nil && atomic.LoadInt32(&s.execs) != 1 {
-						msg = fmt.Sprintf("C04 task with a value result executed %d times", s.execs)
+						how := []string{"Do", "TryDo", "ExecuteWithCtx with a cancelled context", "TryExecute", "Do with a context of its own that is cancelled around Stop", "Do with a deadline context at the deadline instant"}[s.mode]
+						tags := "C04,C12"
+						if s.mode != 1 && s.mode != 3 {
+							tags += ",C17" // a blocking submission: released with a result that carries neither a context error nor an execution
+						}
+						msg = fmt.Sprintf("%s task with the result %+v (no error) was executed %d times; submitted through %s", tags, *res, s.execs, how)
 					}
 				default:
 					msg = "C12 accepted task has no result after Stop returned and all submitters finished (stranded)"
@@ -816,6 +858,83 @@ func TestStress(t *testing.T) {
 		} else {
 			fmt.Fprintf(mon, "MON %d ok subs=%d\n", round, atomic.LoadInt32(&submitted))
 		}
+	}
+}
+
+// lateWorkers: pool goroutines that are demonstrably not done - parked on the queue, in a select, executing a task, or inside a chaos
+// delay (which sits BEFORE the real operation: a worker delayed in front of wg.Done has not been counted down yet). A worker between its
+// wg.Done and the return of its function is not reported: Stop may legitimately have returned by then.
+func lateWorkers() (n int, sample string) {
+	buf := make([]byte, 1<<20)
+	k := runtime.Stack(buf, true)
+	for _, g := range strings.Split(string(buf[:k]), "\n\n") {
+		if !strings.Contains(g, ".(*Pool).worker(") && !strings.Contains(g, ".(*Pool).expandedWorker(") {
+			continue
+		}
+		head := g
+		if i := strings.Index(g, "\n"); i > 0 {
+			head = g[:i]
+		}
+		if strings.Contains(g, "vsched.Chaos") || strings.Contains(g, ".(*Task).Execute(") || strings.Contains(head, "chan receive") || strings.Contains(head, "select") {
+			n++
+			sample = head
+		}
+	}
+	return
+}
+
+// startStopRound (chaos builds only): many tiny pools with a deferred Start racing Stop (and sometimes a queued task and a second Stop).
+// Whatever the order, once every Stop call has returned no pool goroutine may be registered or started any more (C08), and a task that
+// was queued has exactly one result: a value if it was executed once, otherwise an error (C04/C12).
+func startStopRound(mon *bufio.Writer, rng *rand.Rand, round int, chaos int) {
+	nw := 2 + rng.Intn(7)
+	fmt.Fprintf(mon, "RUN %d round=%d start/stop race: DisableAutoStart pools with %d workers, Start || Stop (|| Stop), chaos=%d\n", round, round, nw, chaos)
+	mon.Flush()
+	old := atomic.SwapInt32(&vsched.ChaosPerMille, 300)
+	defer atomic.StoreInt32(&vsched.ChaosPerMille, old)
+	msg := ""
+	iters := 0
+	for until := time.Now().Add(150 * time.Millisecond); time.Now().Before(until) && msg == ""; iters++ {
+		p := workerpool.NewPool(context.Background(), workerpool.Option{NumberWorker: nw, ExpandableLimit: 0, ExpandedLifetime: time.Minute, DisableAutoStart: true})
+		var execs int32
+		var task *workerpool.Task
+		if rng.Intn(2) == 0 {
+			task = p.Execute(func(context.Context) (interface{}, error) { atomic.AddInt32(&execs, 1); return 1, nil }) // fills the queue slot
+		}
+		stops := 1 + rng.Intn(2)
+		var sw, st sync.WaitGroup
+		st.Add(1)
+		go func() { defer st.Done(); p.Start() }()
+		for k := 0; k < stops; k++ {
+			sw.Add(1)
+			go func() { defer sw.Done(); p.Stop() }()
+		}
+		sw.Wait()
+		for k := 0; k < 6 && msg == ""; k++ {
+			if n, g := lateWorkers(); n > 0 {
+				msg = fmt.Sprintf("C08 every Stop call has returned and %d pool goroutine(s) are still at work (%s); pool of %d workers, deferred Start racing %d Stop call(s)", n, g, nw, stops)
+			}
+			time.Sleep(40 * time.Microsecond)
+		}
+		st.Wait()
+		if task != nil && msg == "" {
+			select {
+			case res := <-task.Result():
+				if res.Err == nil && atomic.LoadInt32(&execs) != 1 {
+					msg = fmt.Sprintf("C04,C12 the task queued before Start || Stop received the result %+v but was executed %d times (%d Stop calls)", *res, execs, stops)
+				}
+				if res.Err != nil && atomic.LoadInt32(&execs) != 0 {
+					msg = "C04 the task queued before Start || Stop was executed and received an error result"
+				}
+			case <-time.After(5 * time.Second):
+				msg = "C12 the task queued before Start || Stop never received a result"
+			}
+		}
+	}
+	if msg != "" {
+		fmt.Fprintf(mon, "MON %d FAIL %s\n", round, msg)
+	} else {
+		fmt.Fprintf(mon, "MON %d ok subs=%d\n", round, iters)
 	}
 }
 
